@@ -19,7 +19,7 @@ from nflows.transforms.base import InputOutsideDomain
 PROPERTY = "C09"
 RULE = (
     "4 families x bins 1..5 x boxes {unit, [-1,4]x[1,3], [2,3]x[-5,-1], tails 1, 2.5, 32, 1000} x patterns {zero, pat(.,1), pat(.,3), pat(.,8) "
-    "(linear family: up to 3)} x dtype {float64, float32} x direction {forward, inverse} on the sorted grid {end-points, every knot and its "
+    "(linear family: up to 3)} x minimum bin width/height/derivative {default, tall, wide, steep} x dtype {float64, float32} x direction {forward, inverse} on the sorted grid {end-points, every knot and its "
     "+-1..3 ulp neighbours, 8 equispaced points per bin, tail junction +-0..3 ulp, 3 points outside each tail}. One case = one grid "
     "evaluation (about 60-150 points); non-trivial = the grid contains at least one interior knot or a tail junction."
 )
@@ -58,7 +58,10 @@ def params_for(family, K, tails, pname, seed, N, dtype):
     return {"unnormalized_widths": p(K, 0), "unnormalized_heights": p(K, 1), "unnormalized_derivatives": p(K - 1 if tails else K + 1, 2)}
 
 
-def call(family, x, params, inverse, box, tb):
+MINS = {"default": None, "tall": (1e-3, 5e-2, 1e-3), "wide": (5e-2, 1e-3, 1e-3), "steep": (1e-3, 1e-3, 5e-2)}  # (min_bin_width, min_bin_height, min_derivative)
+
+
+def call(family, x, params, inverse, box, tb, mins=None):
     fn = {
         ("linear", False): splines.linear_spline, ("linear", True): splines.unconstrained_linear_spline,
         ("quadratic", False): splines.quadratic_spline, ("quadratic", True): splines.unconstrained_quadratic_spline,
@@ -66,6 +69,10 @@ def call(family, x, params, inverse, box, tb):
         ("rq", False): splines.rational_quadratic_spline, ("rq", True): splines.unconstrained_rational_quadratic_spline,
     }[(family, tb is not None)]
     kw = dict(tails="linear", tail_bound=tb) if tb is not None else dict(left=box[0], right=box[1], bottom=box[2], top=box[3])
+    if mins is not None and family != "linear":
+        kw.update(min_bin_width=mins[0], min_bin_height=mins[1])
+        if family == "rq":
+            kw.update(min_derivative=mins[2])
     return fn(x, inverse=inverse, **params, **kw)
 
 
@@ -76,7 +83,7 @@ def nx(v, d, n, npdt):
     return v
 
 
-def make_grid(family, K, box, tb, pname, seed, dtype, inverse, per_bin):
+def make_grid(family, K, box, tb, pname, seed, dtype, inverse, per_bin, mins=None):
     """sorted grid in the working dtype (as float64 numpy holding representable values)"""
     npdt = np.float64 if dtype == torch.float64 else np.float32
     if tb is not None:
@@ -87,12 +94,12 @@ def make_grid(family, K, box, tb, pname, seed, dtype, inverse, per_bin):
         xk = l + (r - l) * np.arange(K + 1) / K
     else:
         uw = np.zeros(K) if pname == "zero" else pat_values(K, 0 + 2 * (seed % 3), {"pat1": 1.0, "pat3": 3.0, "pat8": 8.0}[pname]).numpy()
-        xk = ref_knots_from_widths(uw, l, r)
+        xk = ref_knots_from_widths(uw, l, r, min_w=(mins[0] if mins else 1e-3))
     knots = xk
     if inverse:
         # output-side knots: push the input knots through the real forward in float64
         P = params_for(family, K, tb is not None, pname, seed, K + 1, torch.float64)
-        yk, _ = call(family, torch.tensor(np.clip(xk, l, r), dtype=torch.float64), P, False, box, tb)
+        yk, _ = call(family, torch.tensor(np.clip(xk, l, r), dtype=torch.float64), P, False, box, tb, mins)
         knots = np.clip(yk.numpy(), b, t)
         lo, hi = b, t
     else:
@@ -134,12 +141,13 @@ def check_case(case):
     box = BOXES[boxname] if tb is None else None
     out = []
     V = lambda cell, sym, msg: out.append((cell, sym, msg))
-    g, (lo, hi), (olo, ohi), knots = make_grid(family, K, box, tb, pname, seed, dtype, inverse, per_bin)
+    mins = MINS[case.get("mins", "default")]
+    g, (lo, hi), (olo, ohi), knots = make_grid(family, K, box, tb, pname, seed, dtype, inverse, per_bin, mins)
     x = torch.tensor(g, dtype=dtype)
     P = params_for(family, K, tb is not None, pname, seed, len(g), dtype)
     direction = "inverse" if inverse else "forward"
     try:
-        y, ld = call(family, x, P, inverse, box, tb)
+        y, ld = call(family, x, P, inverse, box, tb, mins)
     except Exception as e:
         V("grid", "raises %s" % type(e).__name__, "%s on the in-domain grid raised %s: %s" % (direction, type(e).__name__, str(e)[:100]))
         return out, {"n": len(g)}
@@ -236,7 +244,10 @@ def cases_of(unit):
                 if pname == "pat8" and dname == "float32":
                     continue  # single precision is only claimed for moderate magnitudes (C19)
                 for inverse in (False, True):
-                    yield {"family": fam, "bins": K, "box": boxname if tb is None else "unit", "tb": tb, "pattern": pname, "seed": seed, "dtype": dname, "inverse": inverse, "per_bin": 8 if tier == "quick" else 24}
+                    for mins in (("default",) if fam == "linear" else (("default", "tall", "wide", "steep") if fam == "rq" else ("default", "tall", "wide"))):
+                        if mins != "default" and (pname in ("zero", "pat8") or K == 1 and tier == "quick"):
+                            continue
+                        yield {"family": fam, "bins": K, "box": boxname if tb is None else "unit", "tb": tb, "pattern": pname, "seed": seed, "dtype": dname, "inverse": inverse, "per_bin": 8 if tier == "quick" else 24, "mins": mins}
 
 
 def run_unit(unit):
@@ -251,7 +262,7 @@ def run_unit(unit):
             res["nontrivial"] += 1
         bump(res["outcomes"], "%s:%s:%s:%s" % (case["family"], case["dtype"], "inverse" if case["inverse"] else "forward", "violation" if vs else "ok"))
         for cell, sym, msg in vs:
-            boxsig = ("tails=%g" % case["tb"]) if case["tb"] is not None else case["box"]
+            boxsig = (("tails=%g" % case["tb"]) if case["tb"] is not None else case["box"]) + ("" if case.get("mins", "default") == "default" else ",mins=" + case["mins"])
             key = "%s_spline|%s|%s|%s:%s|%s" % (case["family"], boxsig, case["dtype"], "inverse" if case["inverse"] else "forward", cell, sym)
             res["violations"].append({"key": key, "case": case, "msg": "%s spline bins=%d %s pattern=%s %s: %s" % (case["family"], case["bins"], boxsig, case["pattern"], case["dtype"], msg)})
         if not res["samples"]:
@@ -263,6 +274,6 @@ def replay(case):
     vs, _ = check_case(case)
     out = []
     for cell, sym, msg in vs:
-        boxsig = ("tails=%g" % case["tb"]) if case["tb"] is not None else case["box"]
+        boxsig = (("tails=%g" % case["tb"]) if case["tb"] is not None else case["box"]) + ("" if case.get("mins", "default") == "default" else ",mins=" + case["mins"])
         out.append({"key": "%s_spline|%s|%s|%s:%s|%s" % (case["family"], boxsig, case["dtype"], "inverse" if case["inverse"] else "forward", cell, sym), "case": case, "msg": msg})
     return out
